@@ -423,7 +423,8 @@ def catalog(thorough):
         if t.spec() not in [x.spec() for x in top]: top.append(t)
         return t
     # c-like enums
-    K = [get(CEnum, "u8", 2, 1), get(CEnum, "u8", 3, 0), get(CEnum, "u16", 3, 2), get(CEnum, "u32", 2, 0), get(CEnum, "u8", 1, 0)]
+    K = [get(CEnum, "u8", 2, 1), get(CEnum, "u8", 3, 0), get(CEnum, "u16", 3, 2), get(CEnum, "u32", 2, 0), get(CEnum, "u8", 1, 0),
+         get(CEnum, "u8", 256, 255), get(CEnum, "u8", 255, 0)]   # as many variants as the tag can count, and one less
     if thorough: K += [get(CEnum, "u16", 4, 1), get(CEnum, "u32", 4, 3)]
     for k in K: add(k)
     K2, K3, K16, K32 = K[0], K[1], K[2], K[3]
